@@ -64,6 +64,22 @@ def worker(args):
             stats["cases"] += 1
             stats["classes"][r["meta"]["class"]] = stats["classes"].get(r["meta"]["class"], 0) + 1
             stats["features"] += len(obj.features); stats["rows"] += len(X)
+            if rng.random() < 0.2:
+                # manual edits first (what each edit must do is C17's business; here: transform is still the mapping that the
+                # edited values_orders / features_dropna describe, also after a reload)
+                from . import c17
+                import warnings
+                for _ in range(rng.randint(1, 2)):
+                    e = c17.gen_edit(rng, obj)
+                    if e is None:
+                        continue
+                    try:
+                        with warnings.catch_warnings():
+                            warnings.simplefilter("ignore")
+                            obj.update_discretizer(*e)
+                        stats["edits"] = stats.get("edits", 0) + 1
+                    except Exception:
+                        break
             if rng.random() < 0.5:
                 # read-only observers between fit and transform: summary(), history(), to_json() must not change the mapping
                 import warnings
